@@ -203,16 +203,28 @@ def write_project(ex, case, prefix="c16_", extreme=False):
     shutil.copy(os.path.join(REPO, "examples", "project", "ex1", "endit_ex1.txt"), os.path.join(dst, "endit_%s.txt" % name))
     open(os.path.join(dst, "managementout_conf.yml"), "w").write(MGMT_CONF)
     open(os.path.join(dst, "cropout_conf.yml"), "w").write(CROPOUT)
-    open(os.path.join(dst, "fert_%s.txt" % name), "w").write("Field_ID  N   Frt date\nend\n")
+    from props import c10
+    sched = case.get("sched") or []
+    lrnd = random.Random(case["idx"] * 31 + 5)
+    def other_fert():
+        return "%-9s %3d %-3s %s" % (fid + "Y", lrnd.randrange(10, 200), "KAS", fmt_date(numday(case["B"] + lrnd.randrange(-100, 600)), f))
+    fl = c10.interleave(lrnd, ["%-9s %5s %-3s %s" % (fid, a, nm, fmt_date(numday(d), f)) for (d, a, nm) in sched], other_fert) if sched else []
+    open(os.path.join(dst, "fert_%s.txt" % name), "w").write("Field_ID  N   Frt date\n" + "".join(l + "\n" for _, l in fl) + "end\n")
     open(os.path.join(dst, "til_%s.txt" % name), "w").write("Field_ID  Ti Typ date\n          cm\nend\n")
     open(os.path.join(dst, "irr_%s.txt" % name), "w").write("Field_ID  Ir N03 date\n          mm mg/l\nend\n")
     open(os.path.join(dst, "poly_%s.txt" % name), "w").write("Polyg SID  Field_ID  GH GL Ir comment\n10001 001 %s    99 99 0 own\nend\n" % fid)
     rows = []
     for k, (code, sow, har, w) in enumerate(case["crops"]):
         sw = fmt_date(sow, f) if sow else fmt_date(har - datetime.timedelta(days=120), f)
-        rows.append("%-9s %-3s %s %s %s %d" % (fid, code, sw, fmt_date(har, f), "080 050" if k == 0 else "000 000", 1 if (w or {}).get("org") else 0))
+        flag = 1 if ((w or {}).get("org") or (case.get("autorg") and case["autorg"][k])) else 0
+        rows.append("%-9s %-3s %s %s %s %d" % (fid, code, sw, fmt_date(har, f), "080 050" if k == 0 else "000 000", flag))
+    def other_crop():
+        d = numday(case["B"] + lrnd.randrange(-300, 700))
+        return "%-9s %-3s %s %s 000 000 %d" % (fid + lrnd.choice(["Y", "Z"]), lrnd.choice(["SM", "WW", "ZR"]), fmt_date(d, f),
+                                              fmt_date(d + datetime.timedelta(days=120), f), lrnd.choice([0, 1]))
+    cl = c10.interleave(lrnd, rows, other_crop)
     open(os.path.join(dst, "crop_%s.txt" % name), "w").write(
-        "Field_ID    crp  sowing harvst Rex yld autorg variety comment\n" + "".join(r + "\n" for r in rows) + "end\n")
+        "Field_ID    crp  sowing harvst Rex yld autorg variety comment\n" + "".join(l + "\n" for _, l in cl) + "end\n")
     hdr = open(os.path.join(src, "automan.txt")).read().split("\n")[0]
     open(os.path.join(dst, "automan.txt"), "w").write(hdr + "\n" + "".join(r + "\n" for r in case["rows"].values()))
     annual = "3110" if f < 2 else "1031"
@@ -287,6 +299,17 @@ def org_run(ctx):
     rnd = random.Random(ctx.seed * 7 + 1016)
     n = 400 if ctx.thorough else 14
     cases = [make_case(rnd, i, force_sw=rnd.choice([2, 3, 3, 10, 11, 6, 15]), org_p=0.9, skip=(i % 3 == 0)) for i in range(n)]
+    # scheduled fertilisation (AutoFertilization off) under every combination of the other three switches, rotation rows
+    # flagged autorg = 1, first fertilisations only after the first harvests (more crops harvested than events carried out)
+    m = 200 if ctx.thorough else 8
+    for i in range(m):
+        cs = make_case(rnd, n + i, force_sw=[0, 1, 4, 5, 8, 9, 12, 13][i % 8], org_p=0.0)
+        cs["autorg"] = [1 if rnd.random() < 0.7 else 0 for _ in cs["crops"]]
+        lo = daynum(cs["crops"][1][2]) + 20 if len(cs["crops"]) > 1 else cs["B"] + 300
+        ds = sorted(set(rnd.randrange(lo, max(lo + 1, cs["E"] - 30)) for _ in range(rnd.choice([1, 2, 3, 4]))))
+        names = [r[0] for r in __import__("props.c10", fromlist=["x"]).read_table()]
+        cs["sched"] = [(d, str(rnd.randrange(20, 200)), rnd.choice(names)) for d in ds]
+        cases.append(cs)
     _cache["org"] = run_cases(ctx, cases, "c10org_")
     return _cache["org"]
 
@@ -638,6 +661,20 @@ def org_oracle(cases, table):
             fail("run", "the run failed: %s" % ((cs["run"] or {}).get("err")))
             continue
         if not cs["sw"][1]:
+            if cs.get("sched") is not None:
+                # scheduled fertilisation under the other switches: every event once, in order, on date + 1 (consecutive days when
+                # dates collide), the residues of the initial crop on BEGINN + 1 — not before its scheduled date
+                from props import c10
+                B, E_ = cs["B"], cs["E"]
+                kept = [x for x in cs["sched"] if x[0] >= B]
+                want = [(z + 1, nm) for z, nm in zip(c10.shifted([B] + [d for d, _, _ in kept]), [""] + [nm for _, _, nm in kept]) if z + 1 <= E_]
+                got = [(z, p.get("Fertilizer", "")) for (z, k, p) in cs["log"] if k == "fertilization"]
+                checked += 1
+                if got and want and got[0][0] == want[0][0]:
+                    got[0] = want[0]          # the residue event of the initial crop carries whatever name slot 0 holds
+                if got != want:
+                    fail("scheduled", "fertilisation log %s, the fertiliser file demands %s (autorg flags %s)"
+                         % ([(str(numday(z)), nm) for z, nm in got], [(str(numday(z)), nm) for z, nm in want], cs.get("autorg")))
             continue
         E = cs["E"]
         harv = {h["akf"]: h for h in cs["harv"]}
